@@ -16,8 +16,8 @@ CHECKS["C10"] = dict(level="model_checking", ref="DESIGN.md §5 C10, §9", thoro
    note="no reference model is trusted (purely relational); duplicate-key accounting is judged where every member is single-keyed; two recorded CBOR defects are attributed only on the committed state lists under known/ (structural pattern AND listed state)",
    tech="exhaustive permutation enumeration, differential oracle")
 CHECKS["C14"] = dict(level="model_checking", ref="DESIGN.md §5 C14, §9", thorough=True,
-   text="every (schema, JSON document) state up to weight 3 (4 thorough) x JSON universe on both validators; from each state the histories repeat / call-after-all-other-calls (reverse sweep) / string entry point are executed and the ordered (location, reason) lists compared; every JSON error location is resolved in the document; a fixed table checks that malformed schema, malformed document and non-conforming document come back as different error kinds",
-   note="sequential histories only: the crate has no static or thread-local mutable state, so concurrent interleavings have nothing to interleave (argued in DESIGN.md 9.4, not explored)",
+   text="every (schema, JSON document) state up to weight 3 (4 thorough) x JSON universe plus a struct family (all maps of 1-3 members over a 13-member alphabet with nested values x 343 objects) on both validators; call histories over a 26-call alphabet that touches every caching dependency: each ordered pair (thorough: triple) of calls is run in its own fresh process and every call must report as it does alone in a fresh process; from each state the histories repeat / call-after-all-other-calls (reverse sweep) / string entry point are executed and the ordered (location, reason) lists compared; every JSON error location is resolved in the document; a fixed table checks that malformed schema, malformed document and non-conforming document come back as different error kinds",
+   note="sequential histories are enumerated exhaustively up to length 2 (3 thorough); interleavings of concurrent calls cannot be enumerated by a controlled scheduler here (no synchronisation points of the crate's own; loom/shuttle do not intercept std inside the regex/pest dependencies): every pair of calls is additionally run on two free-running threads, which is sampling and is reported separately in the evidence",
    tech="exhaustive state x history enumeration on the real validators")
 CHECKS["C06"] = dict(level="model_checking", ref="DESIGN.md §5 C06, §9", thorough=True,
    text="explicit-state exploration of the parse/format graph: every accepted text of four exhaustively enumerated families (all type terms up to weight 4 (5 thorough) over a syntax alphabet covering every construct and literal kind; rule headers with generics, sockets, /=, //=, group rules; all ordered pairs/triples of representative rules; comma-free, multi-line and tab/CRLF respellings) is a state, its formatting and re-formatting are the transitions; on every state the real parser and printer are run and the formatted text must be accepted, parse to the same AST up to positions/comments/commas, and re-format to itself",
